@@ -149,6 +149,10 @@ class VSocketModule:
 		self.created += 1
 		return VSock(self.net)
 
+	# also usable where the code imported the class itself (`from socket import socket`)
+	def __call__(self, family = 2, type = 2, *a):
+		return self.socket(family, type, *a)
+
 
 class VSelect:
 	""" Stand-in for the `select` module inside fake_trx: blocks until one of
